@@ -540,6 +540,11 @@ class NumpyFuncs:
                 return d.payload == "int"
             if t.payload == "floating":
                 return d.payload == "real"
+            if t.payload in ("unsignedinteger", "signedinteger"):
+                # integer arrays of the verified text are SIGNED mathematical integers; unsigned input arrays are outside the encoding
+                # (what the code does with them is exercised by the bounded tier of C13)
+                self.note_assumption("integer arrays are signed: np.issubdtype(dtype, np.unsignedinteger) is False for every modelled array")
+                return d.payload == "int" and t.payload == "signedinteger"
         raise Unsupported("np.issubdtype on unknown dtype")
 
     def np_unique(self, st, args, kw, node):
